@@ -52,8 +52,15 @@ RULE = (
     'pncwarn writes), left/right=nan & clean=mask must mask; never an '
     'interior index; no unmasked index outside 0..n-1 (entries for which '
     'the caller asked for raw nan with clean=none are not judged); '
-    'bounds=error must not raise when every query is inside the hull of '
-    'the centres.  Comparison is exact (dyadic inputs) except at decision '
+    'when every query lies in the certain domain (cells of the bounds '
+    'variable if there is one, for any method; half-cell extension for '
+    'method=bounds on a uniform coordinate without one; else the hull of '
+    'the centres) bounds=error must not raise the out-of-bounds rejection '
+    'and bounds=warn must not emit an out-of-bounds warning; queries '
+    'between the end centres and the outer edges are forced into half of '
+    'the in-domain-only cases.  time2idx queries are the same instants '
+    'given as naive, UTC-aware, or aware datetimes with offsets -06:00, '
+    '+05:30, +09:00, -11:00, +05:45, +01:00 (the instant decides the cell).  Comparison is exact (dyadic inputs) except at decision '
     'points: a query within tol = 8 eps x (largest |coordinate| + (n+1) x '
     'widest cell) of a cell edge / within 2 tol of an exact tie may take '
     'either neighbour (label accepted-by-ulp-leniency counts how often that '
@@ -68,6 +75,8 @@ BUDGET = {'quick': dict(examples=12800, max_s=200),
           'thorough': dict(examples=600000, max_s=2400)}
 
 Q = 0.25   # coordinate quantum
+# UTC offsets (minutes) of timezone-aware query datetimes
+TZ_OFFSETS = [-360, 330, 540, -660, 345, 60, 0]
 
 
 # ------------------------------------------------------------------ strategy
@@ -101,6 +110,11 @@ def _pool(coord, edges):
     for i in range(n - 1):
         for fr in (0.125, 0.375, 0.625, 0.875):
             pts.append((c[i] + fr * (c[i + 1] - c[i]), 'interior'))
+    # between the end centres and the outer edges of a bounds variable
+    if es:
+        for cc, ee in ((c[0], es[0]), (c[-1], es[-1])):
+            for fr in (0.25, 0.5, 0.75):
+                pts.append((cc + fr * (ee - cc), 'end-half'))
     return pts
 
 
@@ -213,16 +227,35 @@ def cases(draw, tier='quick'):
         idx = _with_repeats(draw, idx)
         spec['queries'] = [pool[i] for i in idx]
         spec['scalar'] = False
+        qtz = draw(st.sampled_from(['naive', 'utc', 'offsets', 'offsets']))
+        if qtz == 'offsets':
+            qtz = [draw(st.sampled_from(TZ_OFFSETS)) for _ in idx]
+        spec['qtz'] = qtz
         return spec
     pool = _pool(c, edges)
     k = _nqueries(draw, 10)
     # inside-only cases keep bounds=error / warn paths reachable
     inside_only = draw(st.integers(0, 2)) == 0
     if inside_only:
+        # the certain domain (same rule as the oracle): bounds-variable
+        # cells, or the half-cell extension for method='bounds' on a uniform
+        # coordinate, else the hull of the centres
         lo, hi = min(c), max(c)
+        d = [c[i + 1] - c[i] for i in range(len(c) - 1)]
+        if edges is not None:
+            lo, hi = min(edges + c), max(edges + c)
+        elif method == 'bounds' and all(x == d[0] for x in d):
+            lo, hi = lo - abs(d[0]) / 2, hi + abs(d[0]) / 2
         pool = [p for p in pool if lo <= p[0] <= hi]
     idx = draw(st.lists(st.integers(0, len(pool) - 1), min_size=k,
                         max_size=k))
+    if inside_only and draw(st.booleans()):
+        # make the half cells beyond the end centres well represented
+        ends = [i for i, p in enumerate(pool)
+                if p[1] in ('end-half', 'ext-inside', 'ext-edge', 'edge') and
+                not (min(c) <= p[0] <= max(c))]
+        if ends:
+            idx[draw(st.integers(0, k - 1))] = draw(st.sampled_from(ends))
     if not inside_only and draw(st.booleans()):
         outs = [i for i, p in enumerate(pool) if p[1] in ('outside',
                                                           'ext-edge')]
@@ -309,6 +342,14 @@ def call(spec):
         ref = dt.datetime(y, mo, d, h, tzinfo=dt.timezone.utc)
         times = [ref + dt.timedelta(microseconds=int(round(x * 3600e6)))
                  for x in spec['queries']]
+        # the same instants spelled as naive (= UTC by the library's
+        # convention), UTC-aware, or aware with other UTC offsets
+        qtz = spec.get('qtz', 'utc')
+        if qtz == 'naive':
+            times = [t.replace(tzinfo=None) for t in times]
+        elif qtz != 'utc':
+            times = [t.astimezone(dt.timezone(dt.timedelta(minutes=o)))
+                     for t, o in zip(times, qtz)]
 
         def fn():
             return f.time2idx(np.array(times), dim='time', **kw)
@@ -389,7 +430,18 @@ def check_case(spec):
                       (np.abs(q) < 1e5).any() else 0.0)) + (n + 1) * width
     tol = 8 * np.finfo('d').eps * scale
     surely_out = (q < hlo) | (q > hhi)
-    surely_in = (q >= clo) & (q <= chi)
+    # the domain under the narrowest reading that is still certain: the
+    # cells of the bounds variable when there is one (whatever the method);
+    # without one the half-cell extension only where the library documents
+    # it (method='bounds' on a uniform coordinate), else the centres' hull
+    if hasb:
+        dlo, dhi = hlo, hhi
+    elif method == 'bounds' and uniform:
+        dlo, dhi = hlo, hhi
+    else:
+        dlo, dhi = clo, chi
+    surely_in = (q >= dlo) & (q <= dhi)
+    beyond_centres = surely_in & ((q < clo) | (q > chi))
     # index of the end cell nearest to an outside value
     low_end = int(np.argmin(c))
     high_end = int(np.argmax(c))
@@ -405,6 +457,11 @@ def check_case(spec):
         r.label('bname:' + spec['bname'])
     if spec.get('scalar'):
         r.label('scalar-query')
+    if spec['kind'] == 'time':
+        qtz = spec.get('qtz', 'utc')
+        r.label('qtz:' + (qtz if isinstance(qtz, str) else
+                          ('offsets-nonzero' if any(qtz) else
+                           'offsets-all-zero')))
     r.label('n:2-8' if n <= 8 else ('n:9-20' if n <= 20 else 'n:21-40'))
     r.label('nq:1-10' if q.size <= 10 else 'nq:11-30')
     uq, cnt = np.unique(q, return_counts=True)
@@ -432,6 +489,12 @@ def check_case(spec):
         r.label('has-out-of-range')
     else:
         r.label('all-in-range')
+    if surely_in.all():
+        r.label('all-certainly-in-domain')
+    if beyond_centres.any():
+        r.label('query-between-end-centre-and-outer-edge')
+        if surely_in.all() and spec['bounds'] != 'ignore':
+            r.label('end-half-cell-only-in-domain:' + spec['bounds'])
     r.nontrivial = bool(desc or not uniform or near)
 
     exc, out, err = call(spec)
@@ -446,9 +509,9 @@ def check_case(spec):
             'out of bounds' in str(exc)
         if spec['bounds'] == 'error' and surely_in.all() and rejected:
             r.fail('inrange-rejected', 'bounds=error raised %s: %s although '
-                   'every query %r lies inside the coordinate range '
+                   'every query %r lies inside the domain '
                    '[%r, %r]' % (type(exc).__name__, str(exc)[:200],
-                                 q.tolist(), clo, chi),
+                                 q.tolist(), dlo, dhi),
                    klass=klass0)
             return r
         if spec['bounds'] == 'error' and rejected:
@@ -462,6 +525,17 @@ def check_case(spec):
         r.fail('error-not-raised', 'bounds=error returned %r for queries %r '
                'outside the domain [%r, %r]' % (out, q.tolist(), hlo, hhi),
                klass=klass0)
+    if spec['bounds'] == 'warn' and surely_in.all():
+        if 'out of bounds' in err:
+            r.fail('inrange-warned', 'bounds=warn emitted an out-of-bounds '
+                   'warning although every query %r lies inside the domain '
+                   '[%r, %r]: %s' % (q.tolist(), dlo, dhi,
+                                     err.strip().replace('\n', ' ')[-200:]),
+                   klass=klass0)
+        else:
+            r.label('no-warning-as-required')
+    if spec['bounds'] == 'error' and surely_in.all():
+        r.label('not-rejected-as-required')
     if spec['bounds'] == 'warn' and surely_out.any():
         if 'out of bounds' not in err and 'Warning' not in err:
             r.fail('warn-missing', 'bounds=warn emitted no warning for '
